@@ -91,7 +91,7 @@ def build_counting(desc, **cfg):
 @st.composite
 def valid_case(draw):
     sim = draw(st.sampled_from(SIMS))
-    desc = draw(aprogs.adaptive_program(sim))
+    desc = draw(aprogs.adaptive_program(sim, imperfect=True))
     shots = draw(st.sampled_from([None, 1, 3, 20]))
     seed = draw(st.integers(0, 2**32 - 1))
     return {"desc": desc, "shots": shots, "seed": seed}
